@@ -67,8 +67,9 @@ def mget {α β} [DecidableEq α] (k : α) : List (α × β) → Option β
   | [] => none
   | (k', v) :: m => if k' = k then some v else mget k m
 
-def merase {α β} [DecidableEq α] (k : α) (m : List (α × β)) : List (α × β) :=
-  m.filter (fun p => decide (p.1 ≠ k))
+def merase {α β} [DecidableEq α] (k : α) : List (α × β) → List (α × β)
+  | [] => []
+  | (k', v) :: m => if k' = k then merase k m else (k', v) :: merase k m
 
 def mset {α β} [DecidableEq α] (k : α) (v : β) (m : List (α × β)) : List (α × β) :=
   (k, v) :: merase k m
@@ -99,9 +100,18 @@ def maxIno : Ents → Nat
 /-- A new file gets an inode no name refers to. -/
 def freshIno (fs : Fs) : Nat := maxIno fs.ents + 1
 
+/-- A location = (the directory holding the entry, the entry's name). -/
+def splitLast : Loc → Option (Loc × Name)
+  | [] => none
+  | [a] => some ([], a)
+  | a :: b :: l => (splitLast (b :: l)).map fun dn => (a :: dn.1, dn.2)
+
 /-- The names in directory `d`. -/
 def listDir (fs : Fs) (d : Loc) : List Name :=
-  fs.ents.filterMap fun (k, _) => if k ≠ [] ∧ k.dropLast = d then k.getLast? else none
+  fs.ents.filterMap fun ke =>
+    match splitLast ke.1 with
+    | some (d', n) => if d' = d then some n else none
+    | none => none
 
 /-! ### Path resolution -/
 
@@ -224,6 +234,17 @@ def writeFile (f : Cli.Faults) (fs : Fs) (fuel : Nat) (p : Path) (bytes : List N
   | (fs1, none) => (fs1, false)
   | (fs1, some h) => write f fs1 h bytes
 
+/-- The last three statements of `write_all_or_nothing`:
+```
+let result = write(&tmp, bytes).and_then(|()| fs::rename(&tmp, &dest));
+if result.is_err() { let _ = fs::remove_file(&tmp); }
+result
+``` -/
+def replaceVia (f : Cli.Faults) (fuel : Nat) (fs : Fs) (tmp dest : Path) (bytes : List Nat) : Fs × Bool :=
+  let r1 := writeFile f fs fuel tmp bytes
+  let r2 := if r1.2 then rename f r1.1 fuel tmp dest else (r1.1, false)
+  if r2.2 then (r2.1, true) else ((removeFile r2.1 fuel tmp).1, false)
+
 /-- `write_all_or_nothing(dest, bytes)`, line by line. -/
 def writeAllOrNothingP (f : Cli.Faults) (fuel pid : Nat) (fs : Fs) (dest : Path) (bytes : List Nat) :
     Fs × Bool :=
@@ -231,14 +252,8 @@ def writeAllOrNothingP (f : Cli.Faults) (fuel pid : Nat) (fs : Fs) (dest : Path)
   let dest := (canonicalize fs fuel dest).getD dest
   -- if fs::metadata(&dest).is_ok_and(|meta| !meta.is_file()) { return write(&dest, bytes); }
   if metadataIsFile fs fuel dest = some false then writeFile f fs fuel dest bytes
-  else
-    -- let tmp = dest.with_file_name(format!(".lace-tmp{}", std::process::id()));
-    let tmp := withFileName dest (tmpName pid)
-    -- let result = write(&tmp, bytes).and_then(|()| fs::rename(&tmp, &dest));
-    let r1 := writeFile f fs fuel tmp bytes
-    let r2 := if r1.2 then rename f r1.1 fuel tmp dest else (r1.1, false)
-    -- if result.is_err() { let _ = fs::remove_file(&tmp); }
-    if r2.2 then (r2.1, true) else ((removeFile r2.1 fuel tmp).1, false)
+  -- let tmp = dest.with_file_name(format!(".lace-tmp{}", std::process::id()));
+  else replaceVia f fuel fs (withFileName dest (tmpName pid)) dest bytes
 
 /-- The `Compile` arm on the path-level file system: assemble and emit everything first, then
 `write_all_or_nothing`. Returns exit status and file system. -/
